@@ -26,6 +26,9 @@ pub struct ImgOpts {
     pub container: bool,
     /// force bit depth
     pub bit_depth: Option<u32>,
+    pub fixed_dims: Option<(u32, u32)>,
+    pub force_transforms: Option<Vec<crate::modmodel::Transform>>,
+    pub group_size_shift: Option<u32>,
 }
 
 impl Default for ImgOpts {
@@ -45,6 +48,9 @@ impl Default for ImgOpts {
             plain_entropy: false,
             container: false,
             bit_depth: None,
+            fixed_dims: None,
+            force_transforms: None,
+            group_size_shift: None,
         }
     }
 }
@@ -116,8 +122,12 @@ pub fn gen_modular_image(rng: &mut Rng, opts: &ImgOpts) -> Option<ModularImage> 
         4 => 2,
         _ => 3,
     };
+    let gss = opts.group_size_shift.unwrap_or(gss);
     let gdim = 128u32 << gss;
-    let (w, h) = random_dims(rng, opts.size_class, opts.max_dim, gdim);
+    let (w, h) = match opts.fixed_dims {
+        Some(d) => d,
+        None => random_dims(rng, opts.size_class, opts.max_dim, gdim),
+    };
     let grey = rng.chance(1, 3);
     let depth = random_depth(rng, opts);
     let n_ec = if opts.max_extra == 0 { 0 } else { match rng.below(5) { 0 | 1 => 0, 2 => 1, _ => rng.urange(0, opts.max_extra) } };
@@ -190,7 +200,7 @@ pub fn gen_modular_image(rng: &mut Rng, opts: &ImgOpts) -> Option<ModularImage> 
         plain_entropy: opts.plain_entropy,
         local_tree_pct: if opts.allow_local { 25 } else { 0 },
         local_transform_pct: if opts.allow_local && !wide_values { 15 } else { 0 },
-        transforms: None,
+        transforms: opts.force_transforms.clone(),
         // RCT / squeeze arithmetic needs head-room; keep very wide samples untransformed
         max_transforms: if wide_values { 0 } else { opts.max_transforms },
         force_tree: None,
